@@ -25,6 +25,9 @@ var c15Qty = []float64{1, -2, 0}
 
 var colTokRe = regexp.MustCompile("(\x1b\\[3[12]m)?( *-?[0-9]+\\.[0-9]{2})(\x1b\\[0m)?")
 
+// c15ExactAmounts: every amount of the current scenario is a multiple of 1/100, so what prints as zero is zero.
+var c15ExactAmounts = true
+
 // checkColours: every amount is red when positive, green when negative, uncoloured when zero.
 func checkColours(out string) string {
 	for _, line := range splitLines(out) {
@@ -41,6 +44,14 @@ func checkColours(out string) string {
 				want = "\x1b[31m"
 			} else if v < 0 {
 				want = "\x1b[32m"
+			}
+			if v == 0 && !c15ExactAmounts && (g[1] != "") == (g[3] != "") {
+				// printed as zero: the amount itself may be a small positive (red), a small negative (green, printed
+				// with a minus sign) or zero (uncoloured) - the printed text only excludes the opposite colour
+				neg := strings.Contains(g[2], "-")
+				if g[1] == "" || (neg && g[1] == "\x1b[32m") || (!neg && g[1] == "\x1b[31m") {
+					continue
+				}
 			}
 			if g[1] != want || (want != "") != (g[3] != "") {
 				return fmt.Sprintf("amount %q in line %q has colour code %q, expected %q", g[2], line, g[1], want)
@@ -101,6 +112,7 @@ func checkC15(w *Worker) {
 		max1 = 3
 	}
 	present := func(x *Exec, mkLog func(x *Exec) (absLog, string)) {
+		c15ExactAmounts = true
 		ci := x.Choose(len(colours), "config:colour")
 		ti := x.Choose(len(templates), "config:template")
 		sh := x.Choose(2, "config:shorten")
@@ -136,7 +148,7 @@ func checkC15(w *Worker) {
 		cDef, cNo, cOnly := mk(nil), mk([]string{"--no-totals"}), mk([]string{"--totals-only"})
 		rDef, rNo, rOnly := runApp(cDef), runApp(cNo), runApp(cOnly)
 		x.Obs(rDef.Key(), rNo.Key(), rOnly.Key())
-		x.Case(cfgName+"|"+lg.String(), len(lg[0].Entries) > 0)
+		x.Case(cfgName+"|"+lg.String()+"|"+fmt.Sprint(hash64([]byte(bookText))), len(lg) > 0 && len(lg[0].Entries) > 0)
 		x.Sample(map[string]interface{}{"cmd": cDef.shell(), "stdout": rDef.Stdout})
 		viol := func(kind, msg string, c appCase) {
 			x.Violate("C15|"+tpl.Name+"|"+kind, fmt.Sprintf("configuration %s\n`%s`\n%s", cfgName, c.shell(), msg), map[string]interface{}{"cmd": c.shell(), "config": cfgName})
@@ -269,6 +281,15 @@ func checkC15(w *Worker) {
 			book := "ties:\n  a: 0.25\n  b: -0.25\n  c: 1.115\n  d: 2.675\n  e: 1.25\n  f: 0.01\n  g: 1.005\n  h: -1.345\nr1:\n  a: 0.125\n  cal: 2\n"
 			d := absDay{Date: "2021/01/24", Entries: []absIng{{"ties", q}, {"r1", q2}, {"direct", 0.125}, {"direct2", 2.675}}}
 			return absLog{d, {Date: "2021/01/25", Entries: []absIng{{"ties", q2}, {"direct", 1.115}}}}, book
+		})
+	})
+	// every special scenario (harness/specials.go) through every presentation
+	specials := specialScenarios()
+	w.Explore("special-scenarios", ExploreOpts{ShardDepth: 4}, func(x *Exec) {
+		present(x, func(x *Exec) (absLog, string) {
+			sc := specials[x.Choose(len(specials), "input:scenario")]
+			c15ExactAmounts = sc.Exact
+			return sc.Log, renderBook(sc.Book)
 		})
 	})
 	// names of every length around the two column widths of the default register (27 for the logged food, 20 for
